@@ -5,6 +5,7 @@
 #include "theta_union.hpp"
 #include "theta_intersection.hpp"
 #include "tuple_union.hpp"
+#include "array_of_doubles_sketch.hpp"
 #include "req_sketch.hpp"
 #include "quantiles_sketch.hpp"
 #include "var_opt_sketch.hpp"
@@ -101,6 +102,33 @@ struct FamCompactTuple : NoTrimReset {
   static void query(S& s, const W&) { int64_t x = 0; for (const auto& e : s) x += e.second.value("iterate"); (void)x; }
   static std::string image(const S& s) { return str_of(s.serialize(0, ItemSerde())); }
   static S deser(const std::string& img, int inst) { return S::deserialize(img.data(), img.size(), datasketches::DEFAULT_SEED, ItemSerde(), A(inst)); }
+};
+
+// ---- compact array-of-doubles sketch (summaries are datasketches::array<double>: a hand-written value type with its own special members)
+// merge = through an array_of_doubles union, by reference or BY MOVE (the union moves the entries' summaries out and leaves the
+// source holding moved-from arrays: it must still be assignable and destructible)
+struct FamCompactAod : NoTrimReset {
+  using A = TrackAlloc<double>;
+  using Arr = datasketches::array<double, A>;
+  using AS = A;    // (the library's union builder requires the sketch allocator to be Array::allocator_type; it is rebound inside)
+  using Upd = datasketches::update_array_tuple_sketch<Arr, datasketches::default_array_tuple_update_policy<Arr>, AS>;
+  using S = datasketches::compact_array_tuple_sketch<Arr, AS>;
+  using Uni = datasketches::array_tuple_union<Arr, datasketches::default_array_tuple_union_policy<Arr>, AS>;
+  static S make(int inst, const W& w) {
+    auto u = typename Upd::builder(datasketches::default_array_tuple_update_policy<Arr>(2, A(inst)), AS(inst)).set_lg_k((uint8_t)num(w, 4, 5)).build();
+    for (int64_t i = 0; i < num(w, 3, 10); ++i) { std::vector<double> v{(double)i, 1.0}; u.update((uint64_t)i * 7 + 1, v); }
+    return u.compact(num(w, 5, 1) != 0);
+  }
+  static void update(S&, const W&) { throw BadOp("unsupported"); }
+  static void merge(S& s, S& o, bool mv) {
+    auto u = typename Uni::builder(datasketches::default_array_tuple_union_policy<Arr>(2), AS(cur_inst())).set_lg_k(6).build();
+    u.update(s);
+    if (mv) u.update(std::move(o)); else u.update(const_cast<const S&>(o));
+    s = u.get_result();
+  }
+  static void query(S& s, const W&) { double x = 0; for (const auto& e : s) x += e.second[0] + e.second[1]; volatile double y = x; (void)y; }
+  static std::string image(const S& s) { return str_of(s.serialize()); }
+  static S deser(const std::string& img, int inst) { return S::deserialize(img.data(), img.size(), datasketches::DEFAULT_SEED, AS(inst)); }
 };
 
 struct ItemUnionPolicy { void operator()(Item& a, const Item& b) const { a.add(b.value("union")); } };
@@ -337,6 +365,7 @@ inline AnyObj* make_monitored(const std::string& fam, int inst, const W& w) {
   if (fam == "cth") return new ObjT<FamCompactTheta>(inst, w);
   if (fam == "thu") return new ObjT<FamThetaUnion>(inst, w);
   if (fam == "ctup") return new ObjT<FamCompactTuple>(inst, w);
+  if (fam == "caod") return new ObjT<FamCompactAod>(inst, w);
   if (fam == "tupu") return new ObjT<FamTupleUnion>(inst, w);
   if (fam == "kllstr") return new ObjT<FamKllStr>(inst, w);
   if (fam == "req") return new ObjT<FamReq>(inst, w);
